@@ -25,13 +25,16 @@ type Contract struct {
 	Lemma      bool
 	Unroll     map[string]int
 	Thorough   bool
+	Preserves  []string
 	Pos        string
 }
 
 type LoopAnn struct {
-	Inv    *ssa.Function
-	Args   []string
-	Unroll int
+	Inv      *ssa.Function
+	Args     []string
+	Unroll   int
+	Body     *ssa.Function // checked at every back edge (what a completed iteration did)
+	BodyArgs []string
 }
 
 type Sweep struct {
@@ -58,6 +61,9 @@ type SpecDB struct {
 	tables     map[string]bool
 	effectFree map[string]bool
 	noblock    []*Sweep
+	fieldFns   map[string]*ssa.Function // field array name -> spec function standing for calls through that func-typed field
+	getters    map[string]bool
+	dynCalls   map[string]*ssa.Function // "fn#k" -> spec function for the k-th dynamic call in fn
 	curProps   []string
 }
 
@@ -102,7 +108,7 @@ func (db *SpecDB) pureExt(fn *ssa.Function) bool {
 	}
 	pp := pkgPathOf(fn)
 	switch pp {
-	case "fmt", "strings", "strconv", "errors", "time", "net", "path", "path/filepath", "unicode", "unicode/utf8", "math", "sort", "slices", "maps", "bytes", "encoding/base64", "encoding/hex", "crypto/md5", "crypto/subtle", "reflect", "context", "net/url", "net/netip", "github.com/samber/lo", "math/rand", "crypto/rand", "regexp":
+	case "fmt", "strings", "strconv", "errors", "time", "net", "path", "path/filepath", "unicode", "unicode/utf8", "math", "sort", "slices", "maps", "bytes", "encoding/base64", "encoding/hex", "crypto/md5", "crypto/subtle", "reflect", "context", "net/url", "net/netip", "github.com/samber/lo", "math/rand", "crypto/rand", "regexp", "github.com/fatedier/golib/msg/json", "encoding/json":
 		return true
 	}
 	return false
@@ -168,7 +174,7 @@ func findFunc(prog *ssa.Program, all map[string]*ssa.Function, name string) *ssa
 }
 
 func buildSpecDB(prog *ssa.Program, pkgs []*packages.Package, allFns map[string]*ssa.Function) *SpecDB {
-	db := &SpecDB{contracts: map[string]*Contract{}, pure: map[string]bool{}, uninterp: map[string]bool{}, guards: map[string]map[int]int{}, invariants: map[string][]*ssa.Function{}, loopAnns: map[string]*LoopAnn{}, pureExts: map[string]bool{}, nullable: map[string]bool{}, lockCache: map[*ssa.Function]bool{}, tables: map[string]bool{}, effectFree: map[string]bool{}}
+	db := &SpecDB{contracts: map[string]*Contract{}, pure: map[string]bool{}, uninterp: map[string]bool{}, guards: map[string]map[int]int{}, invariants: map[string][]*ssa.Function{}, loopAnns: map[string]*LoopAnn{}, pureExts: map[string]bool{}, nullable: map[string]bool{}, lockCache: map[*ssa.Function]bool{}, tables: map[string]bool{}, effectFree: map[string]bool{}, fieldFns: map[string]*ssa.Function{}, getters: map[string]bool{}, dynCalls: map[string]*ssa.Function{}}
 	db.inlineExts = []string{"github.com/fatedier/golib/errors", "github.com/samber/lo"}
 	seen := map[string]bool{}
 	packages.Visit(pkgs, nil, func(p *packages.Package) {
@@ -256,6 +262,10 @@ func (db *SpecDB) readFile(prog *ssa.Program, p *packages.Package, spkg *ssa.Pac
 				if con != nil {
 					con.Trusted = true
 				}
+			case "preserves":
+				if con != nil {
+					con.Preserves = append(con.Preserves, dir[1:]...)
+				}
 			case "thorough":
 				if con != nil {
 					con.Thorough = true
@@ -280,6 +290,24 @@ func (db *SpecDB) readFile(prog *ssa.Program, p *packages.Package, spkg *ssa.Pac
 				db.pure[fn.String()] = true
 			case "uninterp":
 				db.uninterp[fn.String()] = true
+			case "dyncall":
+				// dyncall <target> <k>: this function specifies the k-th dynamic call in target
+				if len(dir) >= 3 {
+					db.dynCalls[expandName(dir[1])+"#"+dir[2]] = fn
+				}
+			case "fieldfn":
+				// fieldfn <TypeName> <field>: this function specifies calls through that func-typed field
+				if len(dir) >= 3 {
+					if obj := p.Types.Scope().Lookup(dir[1]); obj != nil {
+						if stt, ok := obj.Type().Underlying().(*types.Struct); ok {
+							for i := 0; i < stt.NumFields(); i++ {
+								if stt.Field(i).Name() == dir[2] {
+									db.fieldFns[fieldArrayName(obj.Type(), i)] = fn
+								}
+							}
+						}
+					}
+				}
 			case "invariant":
 				// invariant <TypeName> <mutexField>
 				if len(dir) >= 3 {
@@ -368,7 +396,10 @@ func (db *SpecDB) readFile(prog *ssa.Program, p *packages.Package, spkg *ssa.Pac
 					continue
 				}
 				ord, _ := strconv.Atoi(dir[2])
-				la := &LoopAnn{}
+				la := db.loopAnns[fmt.Sprintf("%s#%d", tn, ord)]
+				if la == nil {
+					la = &LoopAnn{}
+				}
 				for _, a := range dir[3:] {
 					switch {
 					case strings.HasPrefix(a, "inv="):
@@ -414,6 +445,35 @@ func (db *SpecDB) readFile(prog *ssa.Program, p *packages.Package, spkg *ssa.Pac
 				for _, n := range dir[1:] {
 					db.pure[expandName(n)] = true
 				}
+			case "getter":
+				for _, n := range dir[1:] {
+					db.getters[expandName(n)] = true
+				}
+			case "loopbody":
+				// loopbody <target> <ordinal> check=<func> args=a,b
+				if len(dir) >= 4 {
+					tn := expandName(dir[1])
+					ord, _ := strconv.Atoi(dir[2])
+					key := fmt.Sprintf("%s#%d", tn, ord)
+					la := db.loopAnns[key]
+					if la == nil {
+						la = &LoopAnn{}
+						db.loopAnns[key] = la
+					}
+					for _, a := range dir[3:] {
+						switch {
+						case strings.HasPrefix(a, "check="):
+							n := strings.TrimPrefix(a, "check=")
+							if m := spkg.Func(n); m != nil {
+								la.Body = m
+							} else {
+								db.errf("loopbody: function %q not found", n)
+							}
+						case strings.HasPrefix(a, "args="):
+							la.BodyArgs = strings.Split(strings.TrimPrefix(a, "args="), ",")
+						}
+					}
+				}
 			case "inline-ext":
 				db.inlineExts = append(db.inlineExts, dir[1:]...)
 			case "pure-ext":
@@ -457,6 +517,40 @@ func findMethodSig(prog *ssa.Program, name string) *types.Signature {
 		o, _, _ := types.LookupFieldOrMethod(obj.Type(), true, p.Pkg, mn)
 		if f, ok := o.(*types.Func); ok {
 			return f.Type().(*types.Signature)
+		}
+	}
+	return nil
+}
+
+// dynCallSpec: specification function for a dynamic call site, if declared.
+func (db *SpecDB) dynCallSpec(site ssa.Instruction) *ssa.Function {
+	if site == nil || site.Parent() == nil || len(db.dynCalls) == 0 {
+		return nil
+	}
+	fn := site.Parent()
+	k := 0
+	for _, b := range fn.Blocks {
+		for _, ins := range b.Instrs {
+			var cc *ssa.CallCommon
+			switch c := ins.(type) {
+			case *ssa.Call:
+				cc = &c.Call
+			case *ssa.Defer:
+				cc = &c.Call
+			}
+			if cc == nil || cc.IsInvoke() || cc.StaticCallee() != nil {
+				continue
+			}
+			if _, isB := cc.Value.(*ssa.Builtin); isB {
+				continue
+			}
+			if _, isMC := cc.Value.(*ssa.MakeClosure); isMC {
+				continue
+			}
+			k++
+			if ins == site {
+				return db.dynCalls[fmt.Sprintf("%s#%d", fn.String(), k)]
+			}
 		}
 	}
 	return nil
